@@ -208,6 +208,70 @@ def body(S, t, part):
     S.note("steps", len(exp))
 
 
+def body_sync(S, t, part):
+    """sync_ms: a replaced show keeps running until its replacement starts at the next sync point"""
+    m = t.machine
+    S.now_symbolic(t.loop)
+    sc = m.show_controller
+    sync = part["sync_ms"]
+    period = sync / 1000.0
+    phase = S.real("phase", 0, period)
+    t.advance_time_and_run(phase)
+    stopped_at = {}
+    started_at = {}
+    m.events.add_handler("vsA_stopped", lambda **kwargs: stopped_at.setdefault("A", t.loop.time()))
+    m.events.add_handler("vsB_played", lambda **kwargs: started_at.setdefault("B", t.loop.time()))
+    m.events.add_handler("vsC_played", lambda **kwargs: started_at.setdefault("C", t.loop.time()))
+    m.events.add_handler("vsA_played", lambda **kwargs: started_at.setdefault("A", t.loop.time()))
+    cfgA = sc.create_show_config("vshow", loops=-1, sync_ms=sync, events_when_played=["vsA_played"], events_when_stopped=["vsA_stopped"])
+    cfgB = sc.create_show_config("vshow2", loops=-1, sync_ms=sync, events_when_played=["vsB_played"])
+    cfgC = sc.create_show_config("vshow3", loops=-1, sync_ms=sync, events_when_played=["vsC_played"])
+    a = sc.replace_or_advance_show(None, cfgA, None)
+    t.advance_time_and_run(period + 0.01)
+    if "A" not in started_at:
+        raise Violation("sync-start", "RunningShow._start_play", "show A did not start within one sync period")
+    ta = started_at["A"]
+    # u1 < u2 inside one sync window after A's start
+    u1 = S.real("u1", 0.001, period)
+    u2 = S.real("u2", 0.001, period)
+    S.assume(u1 < u2)
+    now0 = t.loop.time()
+    # the next sync point after now0 (A started on the grid: ta is a multiple of the period in exact arithmetic)
+    nxt = ta + period
+    k = 0
+    while nxt <= now0 and k < 5:
+        nxt = nxt + period
+        k += 1
+    S.assume(now0 + u2 < nxt)
+    t.advance_time_and_run(u1)
+    b = sc.replace_or_advance_show(a, cfgB, None)
+    t.advance_time_and_run(u2 - u1)
+    c = sc.replace_or_advance_show(b, cfgC, None) if part["third"] else b
+    # just before the sync point the running show must still be up
+    if a.stopped or "A" in stopped_at:
+        raise Violation("replaced-show-runs-until-the-sync-point", "ShowController.replace_or_advance_show", "show A was stopped at +%s, before the sync point +%s where its replacement starts" % (
+            stopped_at.get("A", t.loop.time()) - ta, nxt - ta))
+    if not _show_keys(m, a.context):
+        raise Violation("replaced-show-runs-until-the-sync-point", "RunningShow.stop", "the running show's lights are gone before the sync point")
+    t.advance_time_and_run(nxt - t.loop.time() + 0.01)
+    last = "C" if part["third"] else "B"
+    if last not in started_at:
+        raise Violation("sync-start", "RunningShow._start_play", "replacement %s did not start at the sync point" % last)
+    if started_at[last] != nxt:
+        raise Violation("sync-start", "RunningShow._start_play", "replacement started at +%s, sync point +%s" % (started_at[last] - ta, nxt - ta))
+    if stopped_at.get("A") != nxt:
+        raise Violation("stopped-event-at-the-right-moment", "RunningShow.stop", "show A stopped at %s, sync point +%s" % (stopped_at.get("A"), nxt - ta))
+    # (a pending show that is itself replaced may start and be stopped within the same instant at the sync point: not flagged)
+    for x in (a, b, c):
+        if x is not (c if part["third"] else b):
+            if _show_keys(m, x.context):
+                raise Violation("nothing-of-the-show-left-behind", "RunningShow.stop", "light entries of a replaced show remain")
+    (c if part["third"] else b).stop()
+    t.advance_time_and_run(0.1)
+    S.note("nontrivial", True)
+    S.note("third", part["third"])
+
+
 def scenarios(tier):
     parts = [dict(control=None, loops=None, start_step="sym"), dict(control=None, loops=1, start_step=1), dict(control="stop", loops=-1, start_step=1),
              dict(control="pause_resume", loops=1, start_step=1), dict(control="advance", loops=1, start_step=1), dict(control="step_back", loops=1, start_step=1),
@@ -215,4 +279,6 @@ def scenarios(tier):
     if tier != "quick":
         parts += [dict(control=c, loops=None, start_step="sym") for c in ("stop", "pause_resume", "advance", "step_back")]
     pb = 80 if tier == "quick" else 400
-    return [Scenario("schedule", setup, body, parts, teardown=teardown, part_budget=pb, per_path_timeout=60)]
+    sparts = [dict(sync_ms=500, third=True), dict(sync_ms=500, third=False), dict(sync_ms=250, third=True)]
+    return [Scenario("schedule", setup, body, parts, teardown=teardown, part_budget=pb, per_path_timeout=60),
+            Scenario("sync", setup, body_sync, sparts, teardown=teardown, part_budget=pb, per_path_timeout=60)]
